@@ -108,6 +108,11 @@ func genHist(seed uint64, prop, tier string, audit bool, mode string) *Plan {
 			die(2, "corpus yields no parseable object")
 		}
 		o = maybeSynth(g, idx, o, prof.synthP)
+		if mode == "clock" && kind == KCert && g.Chance(0.4) {
+			if c := pickClass(g, func(e *corpusClassEntry) bool { return len(e.Clk) > 0 }); c != nil {
+				o = c
+			}
+		}
 		if g.Chance(mut) {
 			if k := g.Intn(10); k < 5 {
 				if v := flipVariant(g, o); v != nil {
@@ -224,7 +229,82 @@ func genHist(seed uint64, prop, tier string, audit bool, mode string) *Plan {
 	if g.Chance(0.6) {
 		p.Ops = append(p.Ops, Op{K: "fresh", Reg: g.Intn(len(hg.mregs))})
 	}
+	if mode == "clock" {
+		addClockJumps(g, meta, p)
+	}
 	return p
+}
+
+// addClockJumps turns a history into one under a simulated clock (fine-grain build): the clock
+// is set before the first op and jumps - backwards and forwards, by seconds or by decades - before
+// a seeded share of the lint and repeat ops; some repeat ops advance it between repetitions.
+// Instants are drawn from fixed epochs, the lints' effective / ineffective dates, the validity
+// bounds of the run's certificates and the delegation era of the new gTLDs, each +- a small offset:
+// the places where a rule that consulted the clock would change its mind.
+func addClockJumps(g *RNG, meta *MetaTable, p *Plan) {
+	p.Knobs["worker_mode"] = "clock"
+	p.Knobs["finegrain"] = true
+	var pool []time.Time
+	for _, y := range []int{1971, 1999, 2008, 2012, 2013, 2014, 2015, 2016, 2018, 2020, 2022, 2024, 2026, 2027, 2031, 2038, 2050, 2106, 2500} {
+		pool = append(pool, time.Date(y, time.Month(1+g.Intn(12)), 1+g.Intn(28), g.Intn(24), g.Intn(60), g.Intn(60), 0, time.UTC))
+	}
+	nFixed := len(pool)
+	for _, n := range meta.Names {
+		m := meta.ByName[n]
+		if m.Probe {
+			continue
+		}
+		if !m.Eff.IsZero() {
+			pool = append(pool, m.Eff)
+		}
+		if !m.Ineff.IsZero() {
+			pool = append(pool, m.Ineff)
+		}
+	}
+	nDates := len(pool)
+	for i := range p.Objects {
+		if pp, err := parseObj(p.Objects[i].Kind, p.Objects[i].DER); err == nil {
+			switch pp.Kind {
+			case KCert:
+				pool = append(pool, pp.Cert.NotBefore, pp.Cert.NotAfter)
+			case KCRL:
+				pool = append(pool, pp.CRL.ThisUpdate, pp.CRL.NextUpdate)
+			case KOCSP:
+				pool = append(pool, pp.OCSP.ThisUpdate, pp.OCSP.NextUpdate, pp.OCSP.ProducedAt)
+			}
+		}
+	}
+	draw := func() int64 {
+		var t time.Time
+		switch k := g.Intn(10); {
+		case k < 3:
+			t = pool[g.Intn(nFixed)]
+		case k < 6 && nDates > nFixed:
+			t = pool[nFixed+g.Intn(nDates-nFixed)]
+		case len(pool) > nDates:
+			t = pool[nDates+g.Intn(len(pool)-nDates)]
+		default:
+			t = pool[g.Intn(len(pool))]
+		}
+		t = t.Add(pick(g, []time.Duration{0, -time.Second, time.Second, -time.Hour, 36 * time.Hour, -36 * time.Hour, 400 * 24 * time.Hour, -400 * 24 * time.Hour}))
+		u := t.Unix()
+		if u <= 0 {
+			u = 86400
+		}
+		return u
+	}
+	var ops []Op
+	ops = append(ops, Op{K: "clock", T: draw()})
+	for _, op := range p.Ops {
+		if (op.K == "lint" || op.K == "repeat" || op.K == "fresh") && g.Chance(0.55) {
+			ops = append(ops, Op{K: "clock", T: draw()})
+		}
+		if op.K == "repeat" && g.Chance(0.7) {
+			op.T = pick(g, []int64{1, 3600, 86400, 30 * 86400, 366 * 86400, -86400})
+		}
+		ops = append(ops, op)
+	}
+	p.Ops = ops
 }
 
 func objectDateOf(o *ObjSpec) (t time.Time) {
